@@ -7,11 +7,11 @@ HERE = os.path.dirname(os.path.dirname(os.path.abspath(__file__)))
 
 TABLE = {
     'C01': dict(
-        text='Static selection-discipline check of the three deciders (MerchantEngine.match first_match branch, legacy loop of normalize_merchant, Unknown fallback): rule order preserved by every builder, first-wins accumulator guarded by matched & unset & has-category, result fields read from one winner binding, non-matching rules inert, transforms applied before matching, right variable environment. Decides the necessary structural conditions on all paths of these functions, not the truth of any rule condition. The CSV loader turns every row into a rule independently of the rows before it (no carried container or name guards the append); the dispatch between expression and regex is decided by the expression parser, not by sniffing characters.',
+        text='Static selection-discipline check of the three deciders (MerchantEngine.match first_match branch, legacy loop of normalize_merchant, Unknown fallback): rule order preserved by every builder, first-wins accumulator guarded by matched & unset & has-category, result fields read from one winner binding, non-matching rules inert, transforms applied before matching, right variable environment. Decides the necessary structural conditions on all paths of these functions, not the truth of any rule condition. The CSV loader turns every row into a rule independently of the rows before it (no carried container or name guards the append); the dispatch between expression and regex is decided by the expression parser, not by sniffing characters. The transaction dict handed to the rule evaluation carries description, amount, fields, source and location as given.',
         note='Assumes lexical name resolution, CPython semantics; the truth of match conditions and legacy modifier arithmetic are not decided.',
         tech='CFG control dependence + reaching definitions + who-may-reorder scan over the call graph'),
     'C02': dict(
-        text='Static check that tag collection is control-dependent on the match flag only, accumulates monotonically in both modes, passes lower()/strip/non-empty, that every winner selection filters on has-category, and that tags survive every return of normalize_merchant and reach the transaction dict in all three parsers. Tags items are stored by the loader as written (no case fold on {expression} text); values produced by a generator helper are judged at their yield.',
+        text='Static check that tag collection is control-dependent on the match flag only, accumulates monotonically in both modes, passes lower()/strip/non-empty, that every winner selection filters on has-category, and that tags survive every return of normalize_merchant and reach the transaction dict in all three parsers. Tags items are stored by the loader as written (no case fold on {expression} text); values produced by a generator helper are judged at their yield. Candidate filters are read as the conjuncts every candidate satisfies; a legacy result without match info is returned only when no tag was collected.',
         note='Values of {expr} tags are not decided.',
         tech='control dependence + def-use provenance on tag accumulators'),
     'C03': dict(
@@ -23,7 +23,7 @@ TABLE = {
         note='Function results, equivalence laws, date and float semantics are NOT decided (majority of the statement).',
         tech='AST normal-form comparison of sibling evaluators + provenance checks + table agreement'),
     'C05': dict(
-        text='Static check of parse_generic_csv: finite non-zero guard between amount conversion and append, per-row try containment with handler coverage of the exception-escape set, column provenance of every emitted field, sign discipline (abs before negate, once), total delimiter dispatch with header skip, append inside the row loop with unsorted return. Row independence (no name or container carries information between rows); the classifier receives a date; each reader\'s first line is skipped under has_header.',
+        text='Static check of parse_generic_csv: finite non-zero guard between amount conversion and append, per-row try containment with handler coverage of the exception-escape set, column provenance of every emitted field, sign discipline (abs before negate, once), total delimiter dispatch with header skip, append inside the row loop with unsorted return. Row independence (no name or container carries information between rows); the classifier receives a date; each reader\'s first line is skipped under has_header. Currency symbols are deleted by a bare character class (no anchor).',
         note='What csv.reader / strptime / parse_amount return for a given cell is not decided.',
         tech='dominator + exception-escape analysis + def-use provenance'),
     'C06': dict(
@@ -39,7 +39,7 @@ TABLE = {
         note='RecursionError/MemoryError out of scope; raising-primitive table is the trusted base.',
         tech='interprocedural exception-escape analysis + handler coverage at 13 call sites'),
     'C09': dict(
-        text='Selection idiom of the most_specific branch (max over candidates in rule order, first of equal keys), shape and provenance of the 4-tuple key, keyword tables agree with the language, structural quantities computed from structure, rule_mode plumbing.',
+        text='Selection idiom of the most_specific branch (max over candidates in rule order, first of equal keys), shape and provenance of the 4-tuple key, keyword tables agree with the language, structural quantities computed from structure, rule_mode plumbing. The winner of a field is chosen among rules that provide that field.',
         note='Ranking arithmetic on concrete rule sets not decided.',
         tech='idiom matching + provenance of key components + table agreement'),
     'C10': dict(
@@ -51,40 +51,40 @@ TABLE = {
         note='Report contents as values not decided; cmd_run cannot be executed by the suite, analysis is source-only.',
         tech='def-use chains across functions + CFG exit analysis of the source loop'),
     'C12': dict(
-        text='No unbound names in analyzer/report functions; script-safe embedding of the JSON data; placeholder replacement discipline; key functions injective or collision-handled; one source for headline figures; field coverage between analyzer writer and report reader. Finding keys of the id helpers include the sanitiser\'s own operations; formatting wrappers pass the amount unchanged; the report builders change nothing they did not create. Every rewrite of the serialised data is another JSON spelling of the same text.',
+        text='No unbound names in analyzer/report functions; script-safe embedding of the JSON data; placeholder replacement discipline; key functions injective or collision-handled; one source for headline figures; field coverage between analyzer writer and report reader. Finding keys of the id helpers include the sanitiser\'s own operations; formatting wrappers pass the amount unchanged; the report builders change nothing they did not create. Every rewrite of the serialised data is another JSON spelling of the same text. Each headline figure is printed under its own label in every format; per-category type totals classify a transaction by its own tags.',
         note='HTML/JSON parser round trip (library behaviour) and text layout not decided.',
         tech='symbol-table analysis + text-template/sanitiser provenance'),
     'C13': dict(
-        text='Translation validation: classification.py (ast) and the mirrored block of spending_report.js (own JS parser) are normalised to the same decision-tree terms and compared path by path for 7 function pairs and 5 constants; every JS call site of categorizeAmount is checked for argument provenance; special-tag literals outside the block are audited. External report assets are rewritten on every run. Decision trees that differ as path sets are compared by truth table over their atomic conditions; a JS switch is read as the if-chain it abbreviates.',
+        text='Translation validation: classification.py (ast) and the mirrored block of spending_report.js (own JS parser) are normalised to the same decision-tree terms and compared path by path for 7 function pairs and 5 constants; every JS call site of categorizeAmount is checked for argument provenance; special-tag literals outside the block are audited. External report assets are rewritten on every run. Decision trees that differ as path sets are compared by truth table over their atomic conditions; a JS switch is read as the if-chain it abbreviates. Arithmetic helpers receive their figures in parameter order at every JavaScript call site.',
         note='Assumes primitive correspondences (str.lower vs toLowerCase on ASCII tags, IEEE doubles on both sides, Set.has vs in).',
         tech='two front ends -> common decision-tree normal form, structural equality',
         level='translation_validation'),
     'C14': dict(
-        text='Literal-context escaping of values interpolated into generated rule text, operator tables of modifier_parser / evaluators / _modifier_to_expr agree, per-operator meaning agrees, writer domain within reader domain, the two converters build the same expression. Every loaded CSV rule reaches the converter (no list rebuilt in between).',
+        text='Literal-context escaping of values interpolated into generated rule text, operator tables of modifier_parser / evaluators / _modifier_to_expr agree, per-operator meaning agrees, writer domain within reader domain, the two converters build the same expression. Every loaded CSV rule reaches the converter (no list rebuilt in between). The migration writes in the encoding the loader reads.',
         note='Regex semantics beyond the quoting layer not decided.',
         tech='text-template hole analysis + operator-table agreement + normal-form comparison'),
     'C15': dict(
-        text='Ordered effect sequence of each migration function run through a typestate automaton of what load_config can discover: pointer before destroy, nothing fallible after the destructive step, no overwrite by move, marker last, append-only settings. No directory is relocated entry by entry; the marker is written under the destination of the config move.',
+        text='Ordered effect sequence of each migration function run through a typestate automaton of what load_config can discover: pointer before destroy, nothing fallible after the destructive step, no overwrite by move, marker last, append-only settings. No directory is relocated entry by entry; the marker is written under the destination of the config move. The migrated file is read back only after a successful migration.',
         note='Resumability of the half-done layout migration and torn writes not decided.',
         tech='effect-sequence extraction along the CFG + typestate automaton'),
     'C16': dict(
-        text='Sibling cross-check of cmd_run / cmd_explain / cmd_discover pipelines (feature vectors of loading, supplemental handling, parse_generic_csv keywords), one decision procedure reachable from each command, the Unknown literal contract. One place (load_config) decides the rules file; explain matches the amount it was given. A merchant found by a looser match is explained only where the exact name has been tried and failed.',
+        text='Sibling cross-check of cmd_run / cmd_explain / cmd_discover pipelines (feature vectors of loading, supplemental handling, parse_generic_csv keywords), one decision procedure reachable from each command, the Unknown literal contract. One place (load_config) decides the rules file; explain matches the amount it was given. A merchant found by a looser match is explained only where the exact name has been tried and failed. Inline modifiers are consulted under the same condition by explain and by the classifier; discover\'s totals are not computed from the list cut to --limit.',
         note='Output formatting not decided.',
         tech='call-graph reachability + keyword-provenance feature vectors, contradiction rule'),
     'C17': dict(
-        text='Line loops of MerchantEngine.parse and parse_sections consume-or-raise on every path, every kept expression reaches parse_expression before the engine is returned, load errors are reported by every handler, required-property guards dominate construction, classifier tests apply to the stripped line. Category-or-tags requirement decided by truth table over the guards of the construction; rejections classified by the branch outcomes leading to each raise; the line is classified as written; a property line is accepted independently of the section\'s other properties; a section is never rejected because of other sections. Per-section containers (let_bindings, fields) are created for the section, never inherited through a one-level copy of a shared template.',
+        text='Line loops of MerchantEngine.parse and parse_sections consume-or-raise on every path, every kept expression reaches parse_expression before the engine is returned, load errors are reported by every handler, required-property guards dominate construction, classifier tests apply to the stripped line. Category-or-tags requirement decided by truth table over the guards of the construction; rejections classified by the branch outcomes leading to each raise; the line is classified as written; a property line is accepted independently of the section\'s other properties; a section is never rejected because of other sections. Per-section containers (let_bindings, fields) are created for the section, never inherited through a one-level copy of a shared template. A section is closed with the line of its own header; a configured rules file is loaded (and its failure reported) whether or not it exists.',
         note='The full metamorphic law over all files not decided.',
         tech='CFG path/dominance rules + handler audit'),
     'C18': dict(
-        text='Positions stored from enumerate() unmodified, rejections dominate stores/construction, inspect writer tokens are accepted by the reader regex (constant evaluation of source literals), name agreement in the suggestion loop. Every date format the detector can emit is free of commas and braces; sign flags are only written for the amount field. The four rejections are recognised by the guards of their raise statements; a header gives its index to at most one column of the detector.',
+        text='Positions stored from enumerate() unmodified, rejections dominate stores/construction, inspect writer tokens are accepted by the reader regex (constant evaluation of source literals), name agreement in the suggestion loop. Every date format the detector can emit is free of commas and braces; sign flags are only written for the amount field. The four rejections are recognised by the guards of their raise statements; a header gives its index to at most one column of the detector. The suggestion range is only ever widened.',
         note='Header keyword detection on real files not decided.',
         tech='dominance + provenance + regex-literal writer/reader agreement'),
     'C19': dict(
-        text='Language agreement between suggest_pattern (regex text) and the matcher its consumers wrap it in, literal-context escaping at both consumers, emitted block uses keys of the loader table. No regex assertion is glued around the kept words; the loader reads each line back as written. Deletion patterns assembled from constant tables or precompiled at module level are folded and checked for anchoring.',
+        text='Language agreement between suggest_pattern (regex text) and the matcher its consumers wrap it in, literal-context escaping at both consumers, emitted block uses keys of the loader table. No regex assertion is glued around the kept words; the loader reads each line back as written. Deletion patterns assembled from constant tables or precompiled at module level are folded and checked for anchoring. Property lines are cut at the first colon; the escaping class holds every regex metacharacter; unknown transactions are grouped by their raw statement text.',
         note='Sub-match reasoning about stripped prefixes not decided.',
         tech='producer/consumer language inference + template hole analysis'),
     'C20': dict(
-        text='Who-may-write: reachable filesystem/process sinks from each read-only command are a subset of the sanctioned writers; output paths derive from the output parameter; migration is opt-in; init never clobbers; backup kept.',
+        text='Who-may-write: reachable filesystem/process sinks from each read-only command are a subset of the sanctioned writers; output paths derive from the output parameter; migration is opt-in; init never clobbers; backup kept. The --config directory is made absolute before its parent is taken as the budget folder.',
         note='Lexical call graph (over-approximate by-name fallback for methods).',
         tech='effect inventory + call-graph reachability + guard dominance'),
 }
